@@ -45,15 +45,16 @@ HASHSEEDS = ("1", "4242", "random", "0")
 def _case(draw, shard):
     from vp.checks.c05 import _counts, _row_params
 
-    n = draw(st.integers(3, 6))
-    dims = draw(st.integers(1, 2))
+    heavy = shard % 6 == 1  # one stratum of long multi-chain runs on more data: cross-chain state leaks need many sweeps
+    n = 10 if heavy else draw(st.integers(3, 6))
+    dims = 3 if heavy else draw(st.integers(1, 2))
     rows = []
     for m in range(n):
         for s in range(dims):
             major, minor, normal, t, eps = draw(_row_params())
             depth = draw(st.sampled_from([100, 60, 300]))
-            alt = min(depth, draw(st.sampled_from([37, 5, 80, 20, 50])) + 7 * m)
-            rows.append(dict(mutation_id="mut_%s" % "abcdefgh"[m], sample_id="s%d" % s, ref_counts=depth - alt, alt_counts=alt, major_cn=major, minor_cn=minor, normal_cn=normal, tumour_content=t, error_rate=eps))
+            alt = min(depth, draw(st.sampled_from([37, 5, 80, 20, 50])) + (7 * m) % 60)
+            rows.append(dict(mutation_id="mut_%s" % "abcdefghijklmnop"[m], sample_id="s%d" % s, ref_counts=depth - alt, alt_counts=alt, major_cn=major, minor_cn=minor, normal_cn=normal, tumour_content=t, error_rate=eps))
     chains = [2, 3, 2, 1, 3, 2][shard % 6]
     variants = []
     for v in range(3):
@@ -62,15 +63,18 @@ def _case(draw, shard):
         if chains > 1 and rev:
             for c in range(chains):
                 delays[str(c)] = [1.5 * (chains - 1 - c), 0.0] if v % 2 == 0 else [0.0, 1.5 * (chains - 1 - c)]
-        variants.append(dict(hashseed=HASHSEEDS[(shard + v + draw(st.integers(0, 3))) % 4], aff=draw(st.sampled_from([None, 0, 3])) if (shard + v) % 3 else (shard + v) % 5, delays=delays))
+        aff = draw(st.sampled_from([None, 0, 3])) if (shard + v) % 3 else (shard + v) % 5
+        if heavy and v == 0:
+            aff, delays = 2, {}
+        variants.append(dict(hashseed=HASHSEEDS[(shard + v + draw(st.integers(0, 3))) % 4], aff=aff, delays=delays))
     return dict(
         rows=rows,
         chains=chains,
         seed=(draw(st.integers(0, 2 ** 31 - 1)) + 7919 * shard) % (2 ** 31),
         proposal=PROPS[shard % 3],
         outlier_prob=[0.7, 0.0, 0.3][(shard // 2) % 3],
-        iters=draw(st.integers(3, 8)),
-        N=draw(st.integers(2, 5)),
+        iters=(200 if heavy else draw(st.integers(3, 8))) if shard % 3 else draw(st.integers(60, 120)),
+        N=10 if heavy else draw(st.integers(2, 5)),
         subtree_prob=draw(st.sampled_from([0.0, 0.5])),
         conc_update=draw(st.booleans()),
         variants=variants,
